@@ -11,6 +11,8 @@ Oracles (P): dist tree of the built root == real clean local build (no archive) 
 project state and fingerprint; a matching uploaded artifact is taken without executing a build
 step; all real Build-Ids of a behaviour (artifact names in the archive, identified through the
 audit trail inside the artifact) partition exactly like the spec's structural Build-Ids.
+(A'+B') specs/LiveBuildId.tla: git branch sources and the archive's live-build-id cache (prediction of
+the source Build-Id without checkout), replayed with a real git upstream: checks/c07_live.py.
 """
 import gzip
 import hashlib
@@ -314,6 +316,9 @@ def main():
                 rep.violation(sig, detail)
             if r["i"] % 25 == 0:
                 rep.sample({"origin": r["origin"], "behaviour": r["shape"], "real_build_ids_bucketed": r["bids"]})
+    # live-build-id prediction (git branch sources): specs/LiveBuildId.tla, see checks/c07_live.py
+    from checks import c07_live
+    c07_live.stage(rep, quick, a.seed, rng, min(8, common.workers()))
     if rep.drift:
         rep.level = "exploration"
     return rep.finish()
